@@ -518,12 +518,20 @@ class TypeAliasValue(Value):
         return self.get_value().get_type_value()
 
     def can_assign(self, other: Value, ctx: CanAssignContext) -> CanAssign:
-        if isinstance(other, TypeAliasValue) and self.alias is other.alias:
+        if (
+            isinstance(other, TypeAliasValue)
+            and self.alias is other.alias
+            and tuple(self.type_arguments) == tuple(other.type_arguments)
+        ):
             return {}
         return self.get_value().can_assign(other, ctx)
 
     def can_be_assigned(self, other: Value, ctx: CanAssignContext) -> CanAssign:
-        if isinstance(other, TypeAliasValue) and self.alias is other.alias:
+        if (
+            isinstance(other, TypeAliasValue)
+            and self.alias is other.alias
+            and tuple(self.type_arguments) == tuple(other.type_arguments)
+        ):
             return {}
         return other.can_assign(self.get_value(), ctx)
 
